@@ -186,9 +186,15 @@ func Verif_C01_InProcKinds() {
 		for polls := zv.Choose("header-polls-before-receiving", 3); polls > 0; polls-- {
 			cs.Header()
 		}
+		// a receiver may take every message into the same message value
+		receiverReuses := zv.Bool("receiver-reuses-its-message-value")
+		shared := &verifMsg{}
 		got := 0
 		for {
 			m := &verifMsg{}
+			if receiverReuses {
+				m = shared
+			}
 			e := cs.RecvMsg(m)
 			if e != nil {
 				zv.Assert(e == io.EOF, "server-stream-ends-cleanly")
